@@ -78,7 +78,9 @@ def _switch_edges(F, body, du, pred):
 @RS.rule('C17.R1', 'K-GUARD', 'Parser::substitute_alias: the splice is dominated by the five eligibility tests and entered only through the position tests')
 def r1(cx):
     F = cx.F
-    body = F.body(PSUB)
+    # private helpers of the parser core (e.g. an extracted eligibility test) are inlined, with jump threading,
+    # so that the guard chain is seen where the substitution happens
+    body = F.inlined(F.body(PSUB))
     cx.fn(body.fn)
     du = Q.DefUse(body)
     sub = Q.find_calls(body, [LSUB])
@@ -469,7 +471,7 @@ def r1b(cx):
     F = cx.F
     fn = [f for f in F.bodies if Q.re.search(r'parser::core::Parser::<.*>::substitute_alias$', f)]
     cx.require(len(fn) == 1, 'Parser::substitute_alias not found')
-    body = F.bodies[fn[0]]
+    body = F.inlined(F.bodies[fn[0]])
     cx.fn(body.fn)
     du = Q.DefUse(body)
     sites = Q.find_calls(body, [Q.re.compile(r'::is_after_blank_ending_alias$')])
